@@ -265,8 +265,8 @@ def check(ctx: Ctx) -> None:
                 diff = sorted(set().union(*[set(f.items()) for f in feds]) - set.intersection(*[set(f.items()) for f in feds]))
                 ctx.violation("R19.1", f"{mod}:{api}:siblings", f"{CLI}.{mod}", model.fi(f"{CLI}.{mod}", SITES[[s[0] for s in SITES].index(mod)][1]).node,
                               f"the call sites of {api} in cli/{mod}.py forward different settings: {diff}")
-    if n_sites < 6:
-        raise AnalysisError(f"R19.1: only {n_sites} CLI→API call sites found (floor 6)")
+    if n_sites < 5:
+        raise AnalysisError(f"R19.1: only {n_sites} CLI→API call sites found (floor 5)")
     # circuit --simulate: frequencies from the options, the circuit from the given code
     ss = model.fi(f"{CLI}.circuit", "simulate_spectra")
     sims = [c for c in calls_in(ss.node) if dotted(c.func) == "simulate_spectrum"]
@@ -467,19 +467,71 @@ def check(ctx: Ctx) -> None:
                                   f"cli/{mod}.py:{fi.qual}: there is a path on which the text {V} is neither printed nor written (e.g. no --output and a non-interactive matplotlib backend): the command computes the result and reports nothing")
     if n_tables < 10 or n_emit < 5:
         raise AnalysisError(f"R19.3/4: only {n_tables} tables / {n_emit} emitted texts found (floors 10 / 5)")
-    # fit: refinement restarts from the previous result
+    # fit: refinement restarts from the previous result; every data set starts from the circuit given on the command line
     fc = model.fi(f"{CLI}.fit", "command")
     calls = [c for c in calls_in(fc.node) if dotted(c.func) == "fit_circuit"]
-    ctx.instance("R19.3", "fit: refinements call fit_circuit(fit.circuit, …) and rebind fit")
-    good = len(calls) == 2 and norm(calls[0].args[0]) == "circuit" and norm(calls[1].args[0]) == "fit.circuit" \
-        and all(isinstance(parent(c), (ast.Assign, ast.AnnAssign)) and norm(parent(c).targets[0] if isinstance(parent(c), ast.Assign) else parent(c).target) == "fit" for c in calls) \
-        and isinstance(enclosing(calls[1], (ast.For,)), ast.For) and norm(enclosing(calls[1], (ast.For,)).iter) == "range(0, args.num_refinements)"
+    ctx.instance("R19.3", "fit: starts from parse_cdc(args.circuit); refinements restart from the previous result's circuit; the last result is reported")
     cd = [n for n in walk_ordered(fc.node) if isinstance(n, (ast.Assign, ast.AnnAssign)) and n.value is not None and norm(n.targets[0] if isinstance(n, ast.Assign) else n.target) == "circuit"]
-    good = good and len(cd) == 1 and norm(cd[0].value) == "parse_cdc(args.circuit)"
+    from_cli = [n for n in cd if norm(n.value) == "parse_cdc(args.circuit)"]
+    all_fit = all(isinstance(parent(c), (ast.Assign, ast.AnnAssign)) and norm(parent(c).targets[0] if isinstance(parent(c), ast.Assign) else parent(c).target) == "fit" for c in calls)
+    good = False
+    if len(calls) == 2:
+        lp = enclosing(calls[1], (ast.For,))
+        good = norm(calls[0].args[0]) == "circuit" and norm(calls[1].args[0]) == "fit.circuit" and all_fit and lp is not None and norm(lp.iter) == "range(0, args.num_refinements)" \
+            and enclosing(calls[0], (ast.For,)) is enclosing(lp, (ast.For,)) and len(cd) == 1 and len(from_cli) == 1
+    elif len(calls) == 1 and isinstance(calls[0].args[0], ast.Name):
+        # merged form: one call in a loop of num_refinements + 1 passes whose start value is re-bound from fit.circuit at the end of each pass
+        lp = enclosing(calls[0], (ast.For,))
+        X = calls[0].args[0].id
+        reb = [n for n in (lp.body if lp is not None else []) if isinstance(n, (ast.Assign, ast.AnnAssign)) and n.value is not None
+               and norm(n.targets[0] if isinstance(n, ast.Assign) else n.target) == X and norm(n.value) == "fit.circuit"]
+        good = lp is not None and "args.num_refinements" in norm(lp.iter) and "+ 1" in norm(lp.iter) and all_fit and len(reb) == 1 and len(from_cli) == 1
     if good:
         ctx.ok()
     else:
-        ctx.violation("R19.3", "fit.command:refinement", f"{CLI}.fit", fc.node, "fit must start from parse_cdc(args.circuit), refine args.num_refinements times from fit.circuit and report the last result")
+        ctx.violation("R19.3", "fit.command:refinement", f"{CLI}.fit", fc.node, "fit must start from parse_cdc(args.circuit), refine args.num_refinements times from the previous result's circuit and report the last result")
+    # per-data-set independence: nothing computed for one data set feeds the API call of the next
+    n_dep = 0
+    for mod, fn, api, _ in SITES[:4]:
+        fi = model.fi(f"{CLI}.{mod}", fn)
+        cfg = CFG(fi.node)
+        for c in [c for c in calls_in(fi.node) if dotted(c.func) == api]:
+            loops = []
+            lp = enclosing(c, (ast.For,))
+            while lp is not None:
+                if "data_sets" in norm(lp.iter):
+                    loops.append(lp)
+                lp = enclosing(lp, (ast.For,))
+            if not loops:
+                raise AnalysisError(f"cli/{mod}.py:{fn}: the {api} call is not inside a loop over the data sets")
+            use = cfg.node_of(stmt_of(c))
+            names = sorted({x.id for a in list(c.args) + [k.value for k in c.keywords] for x in ast.walk(a) if isinstance(x, ast.Name) and x.id != "args"})
+            for L in loops:
+                inside = {id(x) for x in walk_ordered(L)}
+                for N in names:
+                    if any(isinstance(x, ast.Name) and x.id == N for x in ast.walk(L.target)):
+                        continue
+                    defs = [cfg.node_of(stmt_of(x)).id for x in walk_ordered(L) if isinstance(x, ast.Name) and x.id == N and isinstance(x.ctx, ast.Store) and id(x) in inside
+                            and not isinstance(stmt_of(x), (ast.For,))]
+                    if not defs:
+                        continue
+                    n_dep += 1
+                    head = cfg.node_of(L).id
+                    # is the use reachable from the loop header without passing a definition of N (upward-exposed use)?
+                    exposed = use.id in cfg.reachable_from(head, blocked=frozenset(d for d in defs if d != use.id))
+                    ctx.instance("R19.3", f"{mod}.{fn}: {N} handed to {api} is (re)computed for each element of {norm(L.iter)}")
+                    if exposed:
+                        ctx.violation("R19.3", f"{mod}.{fn}:{api}:{N}:carried-over", fi.module, c,
+                                      f"cli/{mod}.py:{fn}: {N} is re-bound inside the loop over {norm(L.iter)} and reaches {api} of the next data set: later data sets are processed with state left by earlier ones instead of the command-line input")
+                    else:
+                        ctx.ok()
+    ctx.note(f"per-data-set independence: {n_dep} (name, loop) pairs with a definition inside a data-set loop examined")
+    from ..effects import stateless_rule
+    ctx.instance("R19.2", "input helpers keep no state between commands")
+    ctx.ok()
+    stateless_rule(ctx, model, "R19.2", (f"{CLI}.utility", f"{CLI}.parse", f"{CLI}.fit", f"{CLI}.drt"), 20,
+                   "a later command in the same process gets data sets or settings left behind by an earlier one (mutable DataSet objects handed out twice)",
+                   allowed={(f"{CLI}.utility", "COLORS"): "plot colour cycle", (f"{CLI}.utility", "MARKERS"): "plot marker cycle"})
 
     # ---------------- R19.5 ---------------------------------------------------------
     ft = model.fi(f"{CLI}.utility", "format_text")
